@@ -1,5 +1,69 @@
 import NessaiVerif.Driver.Parse
-/- stub: replaced by the owner of this area -/
+import NessaiVerif.Model.Accounts
+import NessaiVerif.Model.AccountsTables
+import NessaiVerif.Gen.Accounts
+/-
+Line protocol of the accounts area (C12).
+
+`acc run <resetStart 0/1> <freshModel 0/1> <op;op;…>`   ops: `L` launch, `R:e:t:lt` run, `C` checkpoint, `K` kill, `D:d` down
+    → one record per op, joined by `|`:
+      `alive,mEvals,mLtime,stime,current,file(evals:ltime:stime:start | -),retE,retT,retL,comE,comT,comL`
+`acc excluded <Class>` / `acc overrides <Class>` / `acc parts <Class>` / `acc dropped <Class>`  → tables of the `__getstate__` in force
+`acc survives <Class> <attr>` → 0/1        `acc resets <Class>` → 0/1/none
+-/
 namespace NessaiVerif.Driver.Accounts
-def handle (_toks : List String) : String := "bad-op"
+open NessaiVerif NessaiVerif.Parse NessaiVerif.Accounts NessaiVerif.AccountsTables
+
+def parseOp? (s : String) : Option Op :=
+  match s.splitOn ":" with
+  | ["L"] => some .launch
+  | ["C"] => some .checkpoint
+  | ["K"] => some .kill
+  | ["D", d] => d.toNat?.map .down
+  | ["R", e, t, lt] => do
+      let e ← e.toNat?
+      let t ← t.toNat?
+      let lt ← lt.toNat?
+      some (.run e t lt)
+  | _ => none
+
+def showState (s : St) (l : Log) : String :=
+  let f := match s.file with
+    | none => "-"
+    | some sv => s!"{sv.evals}:{sv.ltime}:{sv.stime}:{sv.start}"
+  s!"{showBool s.alive},{s.mEvals},{s.mLtime},{s.stime},{s.current},{f}," ++
+  s!"{sumE l.retained},{sumT l.retained},{sumL l.retained},{sumE l.committed},{sumT l.committed},{sumL l.committed}"
+
+def runAll (c : Cfg) (ops : List Op) : List String :=
+  let rec go (s : St) (l : Log) : List Op → List String
+    | [] => []
+    | op :: rest =>
+      let s' := step c s op
+      let l' := logStep l op
+      showState s' l' :: go s' l' rest
+  go {} {} ops
+
+def handle (toks : List String) : String :=
+  match toks with
+  | ["run", r, f, ops] =>
+    match parseBool? r, parseBool? f, (ops.splitOn ";").mapM parseOp? with
+    | some r, some f, some ops => "|".intercalate (runAll ⟨r, f⟩ ops)
+    | _, _, _ => "bad-op"
+  | ["excluded", c] =>
+    match getstateOwner Gen.Accounts.tables c with
+    | some t => t.name ++ " " ++ showList id t.excluded
+    | none => "none"
+  | ["overrides", c] =>
+    match getstateOwner Gen.Accounts.tables c with
+    | some t => t.name ++ " " ++ showList id (t.overrides.map (·.1)).eraseDups
+    | none => "none"
+  | ["parts", c] =>
+    match getstateOwner Gen.Accounts.tables c with
+    | some t => t.name ++ " " ++ showList id t.tupleParts
+    | none => "none"
+  | ["dropped", c] => showList id (droppedOf Gen.Accounts.tables c)
+  | ["survives", c, f] => showBool (survives Gen.Accounts.tables Gen.Accounts.sites (c, f))
+  | ["resets", c] => showOpt showBool (Gen.Accounts.loopResetsStart.lookup c)
+  | _ => "bad-op"
+
 end NessaiVerif.Driver.Accounts
